@@ -678,6 +678,7 @@ func execPipe(t *testing.T, prop string, planJSON []byte, ch *simrt.Choices, tra
 	}
 	finalizePipe(&p)
 	var obs *PipeObs
+	raceMark := raceLogMark()
 	if pv := bubble(t, func() { obs = runPipe(&p, ch, trace, nil) }); pv != nil {
 		out.Inconclusive = fmt.Sprintf("harness-panic: %v", pv)
 		out.Violations = append(out.Violations, Violation{Prop: prop, Class: "harness-panic", Key: "harness", Msg: fmt.Sprint(pv)})
@@ -685,6 +686,9 @@ func execPipe(t *testing.T, prop string, planJSON []byte, ch *simrt.Choices, tra
 	}
 	fillRunOut(out, &p, obs)
 	evalPipe(prop, &p, obs, out)
+	if simrt.RaceBuild && prop == "C12" {
+		checkRaceLog(prop, raceMark, out, pipeRaceScope)
+	}
 	return out
 }
 
